@@ -30,6 +30,11 @@ def read_argv(path):
 
 def gen_arg(rng):
     parts = []
+    if rng.random() < 0.07:
+        # long arguments: around and beyond 1 KiB after interpolation
+        n = rng.choice([900, 1000, 1023, 1024, 1025, 1100, 2048, 5000])
+        body = "".join(rng.choice("abcxyz /-_.") for _ in range(n))
+        return body if rng.random() < 0.5 else body[: n // 2] + "${%s}" % rng.choice(VARS) + body[n // 2:]
     for _ in range(rng.randint(1, 3)):
         k = rng.random()
         if k < 0.55:
